@@ -237,6 +237,14 @@ class Expect:
         return self.msgs
 
 
+WARN_HEADER = """From Mammoth Require Import WarnSpec.
+Definition chk_warns (c : list (str * dpart) * bool * list (str * img_src) * api_opts * option (str * list str) * option (str * list str)) : bool :=
+  let '(parts, named, linked, a, _, _) := c in warns_agree (mkSource (package_of parts) named linked).
+Definition chk_warns_domain (c : list (str * dpart) * bool * list (str * img_src) * api_opts * option (str * list str) * option (str * list str)) : bool :=
+  let '(parts, named, linked, a, _, _) := c in in_warn_domain (mkSource (package_of parts) named linked).
+"""
+
+
 def run(ctx):
     ctx.build()
     rng = ctx.rng
@@ -303,9 +311,14 @@ def run(ctx):
                 ctx.sample({"messages": [m.message for m in html.messages][:4]})
         terms.append(A.case_term(parts, False, {}, opts, html, raw))
         metas.append(meta)
-    for i in ctx.coq_eval("c16", A.HEADER, terms, A.CASE_TYPE, "chk_api", shard=12)[:5]:
+    for i in ctx.coq_eval("c16", A.HEADER + WARN_HEADER, terms, A.CASE_TYPE, "chk_api", shard=12, more=("chk_warns", "chk_warns_domain"))[:5]:
         ctx.violation("correspondence", "model and implementation disagree (value or messages)",
                       dict(metas[i], obligation="correspondence Model/Api.v vs mammoth.convert_to_html"), False)
+    # the statement of C16_docx_warnings, evaluated: the reader's messages = the warning specification on the XML of the four parts
+    for i in ctx.more_bad["chk_warns"][:5]:
+        ctx.violation("proof", "the reader's messages are not the warnings the specification lists for the XML of the parts (Proofs/WarnSpec.v: warns_agree is false)",
+                      dict(metas[i], obligation="Props/C16.v: C16_docx_warnings evaluated on this package"), False)
+    dist["in_reader_warnings_theorem_domain"] = len(terms) - len(ctx.more_bad["chk_warns_domain"])
     ctx.coverage["traces_validated_against_impl"] = len(terms)
     ctx.coverage["input_distribution"] = dist
     ctx.coverage["rule"] = ("packages with anomalies injected at any depth (unknown elements, undefined style ids, unmapped styled paragraphs/runs, unsupported break types "
